@@ -3,7 +3,7 @@ from vf.extract import FnC, Sel, Mod
 from vf.unit import Unit, Lemma
 from contracts import common as K
 
-P_REC = ('C03', 'C01', 'C07', 'C12', 'C14', 'C08', 'C15', 'C16')
+P_REC = ('C03', 'C01', 'C07', 'C12', 'C14', 'C08', 'C15', 'C16', 'C09')
 
 FRAME = [('frame_iv', ('C03', 'C07'), 'mut_ref_future(final(self).iv) == mut_ref_future(old(self).iv)'),
          ('frame_cipher', ('C03', 'C07'), 'final(self).backend == old(self).backend')]
